@@ -36,7 +36,11 @@ def check_C11(tr, history, meta, rng):
     a = tr.obs
     b = _obs(soft, meta.get("mode", {}))
     out = []
+    # the status row carries the reboot time, so a usage commit of dump_stats may be effective in one
+    # run and not in the other (cf. `eraseUsage` in Props/C11.lean): usage commits are not compared
+    nu = lambda ev: [e for e in (ev or []) if e != "C usage"] if ev is not None else None
     for i, ((op, ea, da), (_, eb, db)) in enumerate(zip(a["steps"], b["steps"])):
+        ea, eb = nu(ea), nu(eb)
         if ea != eb:
             out.append(Finding("C11", "answers after a restart equal those of a server that was kept", i,
                                {"op": proto.op_line(op) if op["op"] != "softrestart" else "restart", "rebuilt": ea, "kept": eb}))
@@ -290,6 +294,9 @@ def _c14_one(tr, history, meta, st, msg, cmax, with_restart):
     # the state right after the duplicate, then every later answer and state
     for i in range(off - 1, len(base_h)):
         (opa, ea, da), (_, eb, db) = a["steps"][i], b_obs["steps"][i + k]
+        # the duplicate may write an extra usage record; the usage database is not channel state
+        ea = [e for e in (ea or []) if e != "C usage"]
+        eb = [e for e in (eb or []) if e != "C usage"]
         if i >= off and ea != eb:
             out.append(Finding("C14", "later answers do not differ after a re-sent command", i,
                                {"command": what, "later_op": proto.op_line(opa), "without": ea, "with": eb},
